@@ -15,162 +15,196 @@ import vlib
 
 CORPUS = os.path.join(vlib.ROOT, "corpus")
 
-HDR = """From Coq Require Import ZArith NArith List Bool.
+HDR = """From Coq Require Import ZArith NArith List Bool Uint63.
 From Lib Require Import ZList.
 From Model Require Import Emitter EmitterTie.
 Import ListNotations.
-Local Open Scope Z_scope.
+Local Open Scope uint63_scope.
 """
 
-KIND = {"ins1": "KIns1", "ins2": "KIns2", "ins2l": "KIns2L", "ins3": "KIns3", "ins3l": "KIns3L", "ins4": "KIns4",
-        "base": "KBase", "db": "KDB", "comment": "KComment", "label": "KLabel"}
-GUARD = {"none": "GNone", "m8": "GM8", "m16": "GM16", "x8": "GX8", "x16": "GX16"}
-
-
-def z(v):
-    return str(v) if v >= 0 else "(%d)" % v
-
-
-def zl(vs):
-    return "[" + "; ".join(z(v) for v in vs) + "]"
-
-
-def hx(vs):
-    """a byte list as one hexadecimal literal (decoded by EmitterTie.hx)"""
-    if not vs:
-        return "[]"
-    if any(v < 0 or v > 255 for v in vs):
-        return zl(vs)
-    return "(hx 0x1" + "".join("%02x" % v for v in vs) + ")"
+# ---- serialiser of the wire format decoded by Model/EmitterTie.v (pcase): one token per scalar / byte
+KINDS = ["ins1", "ins2", "ins2l", "ins3", "ins3l", "ins4", "base", "db", "comment", "label"]
+IKINDS = ["E1", "E2", "E2L", "E3", "E3L", "E4"]
+GUARDS = ["none", "m8", "m16", "x8", "x16"]
 
 
 def bl(b):
     return "true" if b else "false"
 
 
-def g_target(nil, cap, fill):
-    return "None" if nil else "(tgt %d %d)" % (cap, fill)
+def e_bytes(vs):
+    return [len(vs)] + list(vs)
 
 
-def g_op(rec):
+def e_target(nil, cap, fill):
+    return [0] if nil else [1, cap, fill]
+
+
+def e_op(rec):
     st = rec["step"]
     k = st["k"]
     if k == "call":
         o = rec["op"]
-        tr = {"none": "TNone", "rep": "(TRep %d)" % o["c"], "sep": "(TSep %d)" % o["c"]}[o["track"]]
-        return "(SOp (OIns %s %s %d%%N %s %s))" % (o["kind"], hx(o["bytes"]), o["label"], tr, GUARD[o["guard"]])
+        tr = {"none": [0], "rep": [1, o["c"]], "sep": [2, o["c"]]}[o["track"]]
+        return [0, 3, IKINDS.index(o["kind"])] + e_bytes(o["bytes"]) + [o["label"]] + tr + [GUARDS.index(o["guard"])]
     if k == "setbase":
-        return "(SOp (OSetBase %s))" % z(st.get("v", 0))
-    if k == "label":
-        return "(SOp (OLabel %d%%N))" % st.get("v", 0)
-    if k == "bytes":
-        return "(SOp (OEmitBytes %s))" % hx(st.get("d") or [])
-    if k == "comment":
-        return "(SOp (OComment %d%%N))" % st.get("v", 0)
+        return [0, 0, st.get("v", 0)]
     if k == "arep":
-        return "(SOp (OAssumeREP %s))" % z(st.get("v", 0))
+        return [0, 1, st.get("v", 0)]
     if k == "asep":
-        return "(SOp (OAssumeSEP %s))" % z(st.get("v", 0))
+        return [0, 2, st.get("v", 0)]
+    if k == "bytes":
+        return [0, 4] + e_bytes(st.get("d") or [])
+    if k == "comment":
+        return [0, 5, st.get("v", 0)]
+    if k == "label":
+        return [0, 6, st.get("v", 0)]
     if k == "clone":
-        return "(SClone %s)" % g_target(st.get("nil", False), st.get("cap", 0), st.get("fill", 0))
+        return [1] + e_target(st.get("nil", False), st.get("cap", 0), st.get("fill", 0))
     if k == "append":
-        return "SAppend"
+        return [2]
     if k == "finalize":
-        return "SFinalize"
+        return [3]
     raise ValueError("step kind " + k)
 
 
-def g_obs(o, bytes_=None):
-    labels = "[" + "; ".join("None" if v < 0 else "Some %d" % v for v in o["labels"]) + "]"
-    return "(mkObs %s %d %d %d %d %d %s %s %s)" % (hx(o["bytes"] if bytes_ is None else bytes_), o["len"], o["cap"], o["pc"], o["flags"], o["base"],
-                                                    bl(o["m16"]), bl(o["x16"]), labels)
+def e_obs(o, bytes_=None):
+    b = o["bytes"] if bytes_ is None else bytes_
+    if any(v < 0 for v in b):          # Bytes() itself panicked in the harness: never equal to the model
+        b = [256]
+    return (e_bytes(b) + [o["len"], o["cap"], o["pc"], o["flags"], o["base"], int(o["m16"]), int(o["x16"])]
+            + [len(o["labels"])] + [0 if v < 0 else v + 1 for v in o["labels"]])
 
 
-def g_render(r):
-    ls = "; ".join("mkR %s %d %s %d%%N %s" % (KIND[x["k"]], x["addr"], hx(x["bytes"]), x["l"], bl(x["warn"])) for x in r["lines"])
-    return "([%s], %s)" % (ls, bl(r["panic"]))
+def e_render(r):
+    out = [len(r["lines"])]
+    for x in r["lines"]:
+        out += [KINDS.index(x["k"]), x["addr"]] + e_bytes(x["bytes"]) + [x["l"], int(x["warn"])]
+    return out + [int(r["panic"])]
 
 
-def g_fin(f):
+def e_fin(f):
     c = f["cls"]
     if c == "ok":
-        return "FOk"
+        return [0]
     if c == "unresolved":
-        return "(FUnresolved %d%%N)" % f["l"]
+        return [1, f["l"]]
     if c == "toofar":
-        return "(FTooFar %d %d)" % (f["from"], f["to"])
+        return [2, f["from"], f["to"]]
     if c == "panic":
-        return "FPanic"
+        return [3]
     raise ValueError("finalize class " + c)
 
 
-def g_case(c):
-    steps = []
+def e_case(c):
+    out = [c["id"], int(c["gen"])] + e_target(c["nil"], c["cap"], c["fill"]) + [c["nl"], len(c["steps"])]
     prev = []
     for r in c["steps"]:
-        if r.get("same"):
-            sec = "SSame"
-        elif r.get("second") is not None:
-            sec = "(SFull %s)" % g_obs(r["second"])
-        else:
-            sec = "SNone"
         cur = r["top"]["bytes"]
         keep = 0
         while keep < len(prev) and keep < len(cur) and prev[keep] == cur[keep]:
             keep += 1
-        steps.append("mkS %s %s %d %s %s" % (g_op(r), bl(r["panic"]), keep, g_obs(r["top"], cur[keep:]), sec))
+        if r.get("same"):
+            sec = [1]
+        elif r.get("second") is not None:
+            sec = [2] + e_obs(r["second"])
+        else:
+            sec = [0]
+        out += e_op(r) + [int(r["panic"]), keep] + e_obs(r["top"], cur[keep:]) + sec
         prev = cur
     f = c["final"]
-    fin = "(mkF %s %s %s %s %s %s)" % (g_render(f["hex1"]), g_render(f["text1"]), g_fin(f["fin"]), hx(f["bytes"]),
-                                       g_render(f["hex2"]), g_render(f["text2"]))
-    return "(mkC %d %s %s %d%%N\n  [%s]\n  %s)" % (c["id"], bl(c["gen"]), g_target(c["nil"], c["cap"], c["fill"]), c["nl"],
-                                                 ";\n   ".join(steps), fin)
+    out += e_render(f["hex1"]) + e_render(f["text1"]) + e_fin(f["fin"]) + e_bytes(f["bytes"]) + e_render(f["hex2"]) + e_render(f["text2"])
+    if any((not isinstance(t, int)) or t < 0 or t >= (1 << 62) for t in out):
+        raise ValueError("token out of range in case %d" % c["id"])
+    return out
 
 
-def shard_text(cases, variant):
-    return (HDR + "Definition cases : list case := [\n" + ";\n".join(g_case(c) for c in cases) + "].\n"
-            + "Definition bad := Eval vm_compute in bad_cases %s cases.\nPrint bad.\n" % bl(variant)
+def g_tokens(name, toks):
+    chunks = ["[" + ";".join(str(t) for t in toks[i:i + 400]) + "]" for i in range(0, len(toks), 400)] or ["[]"]
+    return "Definition %s : list int := %s.\n" % (name, "\n ++ ".join(chunks))
+
+
+def shard_text(encoded, variant):
+    """encoded: list of token lists"""
+    body = "".join(g_tokens("c%d" % i, t) for i, t in enumerate(encoded))
+    return (HDR + body + "Definition cases : list (list int) := [%s].\n" % "; ".join("c%d" % i for i in range(len(encoded)))
+            + "Definition bad := Eval vm_compute in bad_encoded %s cases.\nPrint bad.\n" % bl(variant)
             + "Lemma tie : bad = [].\nProof. reflexivity. Qed.\n")
 
 
 def sizes(tier):
     if tier == "thorough":
-        return {"cases": 24000, "shard": 500, "falsify": 1500}
+        return {"cases": 24000, "shard": 150, "falsify": 1500}
     return {"cases": 3200, "shard": 200, "falsify": 250}
 
 
+def case_hash(c):
+    return vlib.sha(json.dumps([c["gen"], c["nil"], c["cap"], [(r["step"], r["panic"]) for r in c["steps"]]], sort_keys=True))
+
+
 def run_tie(ck, harness):
-    """Runs the correspondence.  Returns dict(ok, variant, n, feat, census, detail, mismatches)."""
+    """Runs the correspondence (streaming: a case is serialised as soon as it is read).
+    Returns dict(ok, variant, n, feat, tags, census, detail, mismatch_cases, compact, nontrivial)."""
     sz = sizes(ck.tier)
-    res = {"ok": False, "variant": None, "n": 0, "feat": {}, "census": {}, "detail": "", "tags": {}}
-    rc, out, dt = vlib.sh([harness, "emitcases", str(ck.seed), str(sz["cases"]), ck.tier, CORPUS], timeout=900)
-    cases, census = [], {}
-    for line in out.splitlines():
+    res = {"ok": False, "variant": None, "n": 0, "feat": {}, "census": {}, "detail": "", "tags": {},
+           "samples": {"refused": [], "nil": [], "append": []}, "distinct": {"c19": set(), "c16": set()}}
+    out_path = os.path.join(vlib.WORK, "emitcases_%s.jsonl" % ck.tier)
+    os.makedirs(vlib.WORK, exist_ok=True)
+    with open(out_path, "w") as fo:
+        import subprocess
+        try:
+            p = subprocess.run([harness, "emitcases", str(ck.seed), str(sz["cases"]), ck.tier, CORPUS], stdout=fo,
+                               stderr=subprocess.PIPE, timeout=1800, env=vlib.GOENV)
+            rc, err = p.returncode, p.stderr.decode("utf-8", "replace")
+        except subprocess.TimeoutExpired:
+            rc, err = 124, "timeout"
+    if rc != 0:
+        res["detail"] = "emitcases failed rc=%s: %s" % (rc, err[-600:])
+        return res
+    os.makedirs(vlib.RUN, exist_ok=True)
+    shards, cur, probe, index = [], [], [], {}
+    for line in open(out_path):
         if line.startswith("CENSUS "):
-            census = json.loads(line[7:])
-        elif line.startswith("{"):
-            cases.append(json.loads(line))
-        elif line.startswith("ERROR"):
-            res["detail"] = line
+            res["census"] = json.loads(line[7:])
+            continue
+        if line.startswith("ERROR"):
+            res["detail"] = line.strip()
             return res
-    if rc != 0 or not cases:
-        res["detail"] = "emitcases failed rc=%s: %s" % (rc, out[-600:])
-        return res
-    errs = [c for c in cases if c.get("err")]
-    if errs:
-        res["detail"] = "harness could not describe case %d (%s): %s" % (errs[0]["id"], errs[0]["tag"], errs[0]["err"])
-        res["bad_case"] = errs[0]
-        return res
-    res["n"], res["census"] = len(cases), census
-    for c in cases:
+        if not line.startswith("{"):
+            continue
+        c = json.loads(line)
+        if c.get("err"):
+            res["detail"] = "harness could not describe case %d (%s): %s" % (c["id"], c["tag"], c["err"])
+            res["mismatch_cases"] = [c]
+            return res
+        res["n"] += 1
         for f in c.get("feat") or []:
             res["feat"][f] = res["feat"].get(f, 0) + 1
         t = c["tag"].split(":")[0] if c["tag"].startswith(("corpus", "builtin")) else c["tag"]
         res["tags"][t] = res["tags"].get(t, 0) + 1
-    res["cases"] = cases
-    os.makedirs(vlib.RUN, exist_ok=True)
+        refused = any(r["panic"] for r in c["steps"])
+        app = any(r["step"]["k"] == "append" for r in c["steps"])
+        if c["nil"] or refused:
+            res["distinct"]["c19"].add(case_hash(c))
+        if app:
+            res["distinct"]["c16"].add(case_hash(c))
+        for key, cond in (("refused", refused), ("nil", c["nil"]), ("append", app)):
+            if cond and len(res["samples"][key]) < 3:
+                res["samples"][key].append(compact(c))
+        enc = e_case(c)
+        if c["tag"].startswith("builtin:append-base"):
+            probe.append(enc)
+        index[c["id"]] = (len(shards), c["tag"])
+        cur.append(enc)
+        if len(cur) >= sz["shard"]:
+            shards.append(cur)
+            cur = []
+    if cur:
+        shards.append(cur)
+    if not res["n"]:
+        res["detail"] = "emitcases produced no case: " + err[-300:]
+        return res
     # which Append does the tree implement?  decided on the built-in discriminating history
-    probe = [c for c in cases if c["tag"].startswith("builtin:append-base")]
     if not probe:
         res["detail"] = "harness produced no builtin:append-base case"
         return res
@@ -184,11 +218,11 @@ def run_tie(ck, harness):
     if okf == okt:
         res["detail"] = ("model agrees with the code on the Append/base probe under %s variants of Append:\n%s\n%s"
                          % ("both" if okf else "neither", rv[0][1][-700:], rv[1][1][-700:]))
-        res["mismatch_cases"] = probe
+        res["mismatch_ids"] = [0]
+        res["mismatch_cases"] = find_cases(out_path, [0])
         return res
     variant = okt
     res["variant"] = variant
-    shards = [cases[i:i + sz["shard"]] for i in range(0, len(cases), sz["shard"])]
     for n in os.listdir(vlib.RUN):
         m = re.match(r"Cases_EM_(\d+)\.", n)
         if m and int(m.group(1)) >= len(shards):
@@ -197,8 +231,9 @@ def run_tie(ck, harness):
     def job(i):
         p = os.path.join(vlib.RUN, "Cases_EM_%d.v" % i)
         vlib.write_if_changed(p, shard_text(shards[i], variant))
-        return vlib.coqc(p, timeout=1200)
-    rs = vlib.parallel([(lambda i=i: job(i)) for i in range(len(shards))])
+        shards[i] = None
+        return vlib.coqc(p, timeout=1800)
+    rs = vlib.parallel([(lambda i=i: job(i)) for i in range(len(shards))], workers=12)
     bad = [(i, r) for i, r in enumerate(rs) if r[0] != 0]
     res["secs"] = round(sum(r[2] for r in rs), 1)
     res["cached"] = sum(1 for r in rs if r[3])
@@ -207,10 +242,24 @@ def run_tie(ck, harness):
         i, r = bad[0]
         ids = [int(x) for x in re.findall(r"\((\d+),\s*\[", r[1])]
         res["detail"] = "shard %d: %s" % (i, r[1][-1200:])
-        res["mismatch_cases"] = [c for c in shards[i] if c["id"] in ids][:3]
+        res["mismatch_ids"] = ids[:20]
+        res["mismatch_cases"] = find_cases(out_path, ids[:3])
         return res
     res["ok"] = True
     return res
+
+
+def find_cases(path, ids):
+    out = []
+    want = set(ids)
+    for line in open(path):
+        if line.startswith("{"):
+            m = re.match(r'\{"id":(\d+),', line)
+            if m and int(m.group(1)) in want:
+                out.append(json.loads(line))
+                if len(out) == len(want):
+                    break
+    return out
 
 
 TRUSTED = [
@@ -228,6 +277,8 @@ def tie_obligations(ck, harness):
     ck.oblige(name, t["ok"], t["detail"])
     ck.cov["traces_validated_against_impl"] = t["n"] if t["ok"] else 0
     ck.cov["tie"] = {k: t.get(k) for k in ("n", "shards", "secs", "cached", "variant", "feat", "tags", "census")}
+    if t.get("mismatch_ids"):
+        ck.cov["tie"]["mismatch_ids"] = t["mismatch_ids"]
     return t
 
 
@@ -390,14 +441,6 @@ def compact(c):
             "history ('!' = refused)": " ".join(out), "finalize": c["final"]["fin"]["cls"]}
 
 
-def distinct(cases, pred):
-    seen = set()
-    for c in cases:
-        if pred(c):
-            seen.add(vlib.sha(json.dumps([c["gen"], c["nil"], c["cap"], [(r["step"], r["panic"]) for r in c["steps"]]], sort_keys=True)))
-    return len(seen)
-
-
 def common(ck, pid):
     ck.trusted = list(TRUSTED)
     harness, herr = vlib.build_harness()
@@ -444,18 +487,17 @@ def run_c19(ck):
     report_fails(ck, fails)
     if not fails:
         no_cex(ck, t, "C19")
-    cases = t.get("cases") or []
-    nontriv = distinct(cases, lambda c: c["nil"] or any(r["panic"] for r in c["steps"]))
+    nontriv = len(t["distinct"]["c19"])
     ck.cov.update({
-        "evaluations": len(cases) + stats[1],
+        "evaluations": t["n"] + stats[1],
         "distinct_nontrivial": nontriv,
         "rule": "tie: generated scripts run on the real emitter and on the model (checked by Coq); non-trivial for C19 = distinct scripts (by hash of target, listing flag, steps and refusals) with a nil target or at least one refused call. falsifier: every generated history x every capacity 0-3 bytes short of each item end (all capacities 0..size in the thorough tier) + nil-vs-real lockstep; its %d evaluations are in 'evaluations' only" % stats[1],
         "checker_cmd": "coqc build/work/Run/C19_emitter.v build/work/Run/Cases_EM_*.v (Lemma tie by vm_compute)",
         "modelled": "asm/emitter.go, asm/flags.go by hand: coq/Model/Emitter.v",
         "falsifier_histories": stats[0],
     })
-    for c in [c for c in cases if any(r["panic"] for r in c["steps"])][:3] + [c for c in cases if c["nil"]][:2]:
-        ck.sample(compact(c))
+    for c in t["samples"]["refused"] + t["samples"]["nil"][:2]:
+        ck.sample(c)
     ck.sample({"theorems": C19_V})
 
 
@@ -481,18 +523,17 @@ def run_c16(ck):
     report_fails(ck, fails)
     if not fails:
         no_cex(ck, t, "C16")
-    cases = t.get("cases") or []
-    nontriv = distinct(cases, lambda c: any(r["step"]["k"] == "append" for r in c["steps"]))
+    nontriv = len(t["distinct"]["c16"])
     ck.cov.update({
-        "evaluations": len(cases) + stats[1],
+        "evaluations": t["n"] + stats[1],
         "distinct_nontrivial": nontriv,
         "rule": "tie: generated scripts run on the real emitter and on the model (checked by Coq); non-trivial for C16 = distinct scripts containing Clone and Append. falsifier: every generated history x EVERY split point, clone/append vs direct on the real code, plus frame checks; its %d evaluations are in 'evaluations' only" % stats[1],
         "checker_cmd": "coqc build/work/Run/C16_emitter_<variant>.v build/work/Run/Cases_EM_*.v (Lemma tie by vm_compute)",
         "modelled": "asm/emitter.go, asm/flags.go by hand: coq/Model/Emitter.v; Append variant decided by the tie: copies_base = %s" % variant,
         "falsifier_histories": stats[0],
     })
-    for c in [c for c in cases if any(r["step"]["k"] == "append" for r in c["steps"])][:4]:
-        ck.sample(compact(c))
+    for c in t["samples"]["append"]:
+        ck.sample(c)
     ck.sample({"theorems": C16_TRUE_V if variant else C16_FALSE_V})
 
 
